@@ -180,6 +180,17 @@ CHECKS = {
         "DESIGN.md §4 C15",
         "A",
     ),
+    "C16": (
+        "model_checking",
+        "explicit-state exploration of every history of solve_end_to_end calls over a small id alphabet against a scripted ground-truth solver with every core shape, plus a cache-off/cache-on differential of generated many-path tests with real solvers, forced garbage collections and a cache-key invariant",
+        "Histories: all sequences of <= 3 (thorough 4) queries (non-empty subsets of four assertion ids, plus a 30-id scenario) on one shared SolvingContext, for four ground-truth families of unsatisfiable id sets and six core shapes (minimal, whole query, with an (error ...) line, wrapped over several lines as yices prints long cores, "
+        "empty, garbage). The real dump / from_result / parse_unsat_core / check_unsat_cores / solve_end_to_end run; only the solver subprocess is replaced in-process. Invariants after every call: the answer equals the ground truth, and a query is answered without consulting the solver only if it is unsatisfiable in the ground truth. "
+        "Differential: generated tests with 6..40 paths per function (infeasible branches whose contradiction the external solver must find, sharing or not sharing conditions; vm.assume-based variants) and nested/sequential guard tests are run by run_contract with z3 and yices, cache off and on, every branching query answered `unknown` so that "
+        "infeasible paths reach the solver, with and without a forced gc.collect() before every condition is appended: verdicts and counterexample sets must be equal, every real cache hit is re-solved without the cache and must be unsat, and an assertion id named by a cached core must never come to denote a different condition.",
+        "Trusted: the ground-truth solver and the re-solve with /usr/bin/z3 in props/c16_cache.py. Cores are appended to the shared context by the harness exactly as CounterexampleHandler._solve_end_to_end_callback does in the history layer; the differential layer uses the real callback.",
+        "DESIGN.md §4 C16",
+        "A",
+    ),
     "C17": (
         "model_checking",
         "stateless, deviation/preemption-bounded exploration (CHESS style) of the real halmos/processes.py and solve.solve_low_level under a cooperative scheduler with simulated subprocesses; invariants evaluated on every complete schedule",
